@@ -644,7 +644,7 @@ def generate(rng, tier):
         yield scenario_noise(rng, tier)
     for _ in range(n_big):
         yield scenario_big(rng, tier)
-    for i in range(n_big):
+    for i in range(n_big * 2):
         yield scenario_big_overlap(rng, tier, i % 3)
     for _ in range(n_buf):
         yield buf_case(rng)
